@@ -73,7 +73,7 @@ def gen_cases(tier, seed):
                 continue    # NI scaling is defined on real numeric raw data only (DESIGN.md C14)
             for e in '<>':
                 yield {'k': 'cell', 't': t, 'scale': kind, 'e': e, 's': seed}
-    for i in range(20000 if tier == 'thorough' else 1500):
+    for i in range(500000 if tier == 'thorough' else 1500):
         yield {'k': 'graph', 's': seed * 1000003 + i}
 
 
